@@ -59,6 +59,8 @@ def make_db():
         name = orm.Required(str)
         code = orm.Optional(int, unique=True)
         gs = orm.Set(G)
+    class T2(T):        # T is polymorphic: Set.copy of g.tags goes through T._load_many_
+        pass
     db.generate_mapping(create_tables=True)
     return db
 
